@@ -17,13 +17,13 @@ def run(ctx):
     seed = ctx.seed
     ctx.rule = ("BFS over access histories (reads/writes of all widths and byte offsets incl. rejected word-boundary-crossing accesses, counted and "
                 "uncounted, empty and preloaded memory) on the real write-through / write-back memory system, replayed on fresh objects. State "
-                "invariant after every transition, with the flat store as logical contents, the backing store read through wordwise_repr() and "
+                "invariant after every transition, with the flat store as logical contents, the backing store read word by word from the backing Memory object and "
                 "resident blocks through cache_repr(): write-through => backing == logical on the whole universe and every resident block == "
                 "logical; write-back => backing differs from logical only inside resident blocks and every resident block == logical (an eviction "
                 "can never lose a value); the memory table equals the backing store. Plus the closed constant-data control spaces (every reachable "
                 "arrangement of resident tags and policy state). Non-trivial = history with an eviction or a rejected access.")
     ctx.assumptions += ["a backing-store cell holding 0 is merged with an absent cell in the state key",
-                        "write values are one distinctive constant per width plus a second byte value"]
+                        "write values are one distinctive constant per width plus a second byte value; the 'wordz' configurations add stores of 0, a second word value and table calls as operations, over a sparsely preloaded backing store"]
     k = 0
     if ctx.quick:
         for g, kind, policy in cachecfg.quick_configs(seed):
@@ -46,6 +46,9 @@ def run(ctx):
         cachebfs.explore(ctx, Cfg(12, 1, 1, "wb", "lru", 0, "word", False, "base"), WANT, 2)
         closure = [((0, 0, 1), "lru"), ((0, 0, 2), "lru"), ((0, 0, 2), "plru"), ((0, 0, 3), "lru"), ((1, 0, 2), "lru"), ((1, 0, 2), "plru"),
                    ((0, 0, 4), "plru"), ((0, 0, 4), "lru"), ((1, 1, 2), "lru"), ((0, 1, 2), "plru"), ((2, 0, 1), "lru")]
+    # stores of the value 0, equal values in two words of a block, table calls as operations — over a sparsely preloaded store
+    for kind, g, depth in (("wb", (0, 1, 1), 4), ("wb", (1, 1, 2), 3), ("wt", (0, 1, 2), 3), ("wb", (0, 2, 1), 3)) + ((("wb", (0, 1, 2), 4), ("wt", (1, 1, 1), 4)) if not ctx.quick else ()):
+        cachebfs.explore(ctx, Cfg(*g, kind, "lru", 0, "wordz", 2, "base"), WANT, depth + (0 if ctx.quick else 1))
     for g, policy in closure:
         for kind in ("wb", "wt"):
             cachebfs.explore(ctx, Cfg(*g, kind, policy, 0, "control", True, "base", True), WANT, 60)
